@@ -1,16 +1,122 @@
+import ActixNet.Model.Chan
 import Driver.Util
-/-! Engine `local`: line protocol (stub — filled in by the owner of this engine). -/
+/-!
+Engine `local`: line protocol for C17 (`Counter`, `LocalWaker`) and C16 (`local_channel::mpsc`).
+
+```
+case <name> counter <cap>     acquire h | drop g | avail h w | clone h | total h
+case <name> lw                reg w | wake | take
+case <name> chan              send i x | clone i | dropS i | close i | poll w | rsender | dropR
+```
+Every answer ends in ` woke=<ids>`: the counting wakers (ids `0..3`) woken by this operation, `-` if
+none.  Operations that do not apply (unknown handle / guard / sender, waker id ≥ 4, receiver already
+dropped, wrong engine) answer `bad-op` and leave the state unchanged.
+-/
 namespace Driver.Local
-open Driver
+open Driver ActixNet
 
-structure State where
-  dummy : Nat := 0
+inductive State where
+  | idle
+  | counter (s : Counter.Sys)
+  | lw (l : LocalWaker)
+  | chan (c : Chan.Chan)
 
-def init : State := {}
+def init : State := .idle
+
+def nWakers : Nat := 4
+
+def wokeStr : Option WakerId → String
+  | none => " woke=-"
+  | some w => s!" woke={w}"
+
+def optStr : Option Nat → String
+  | none => "-"
+  | some w => toString w
+
+def b01 (b : Bool) : String := if b then "1" else "0"
+
+def counterObs : Counter.Obs → String
+  | .guard id => s!"guard {id}" ++ wokeStr none
+  | .dropped w => "dropped" ++ wokeStr w
+  | .avail b => s!"avail {b01 b}" ++ wokeStr none
+  | .handle id => s!"handle {id}" ++ wokeStr none
+  | .total n => s!"total {n}" ++ wokeStr none
+
+def lwObs : LocalWaker.Obs → String
+  | .registered b => s!"registered {b01 b}" ++ wokeStr none
+  | .woke w => "done" ++ wokeStr w
+  | .took w => s!"took {optStr w}" ++ wokeStr none
+
+def chanObs : Chan.Obs → String
+  | .sent true w => "ok" ++ wokeStr w
+  | .sent false w => "err" ++ wokeStr w
+  | .sender id => s!"sender {id}" ++ wokeStr none
+  | .senderDropped w => "dropped" ++ wokeStr w
+  | .closed w => "closed" ++ wokeStr w
+  | .polled (.ready (some x)) => s!"ready {x}" ++ wokeStr none
+  | .polled (.ready none) => "ready none" ++ wokeStr none
+  | .polled .pending => "pending" ++ wokeStr none
+  | .receiverDropped => "dropped" ++ wokeStr none
+
+/-- strict decimal (the harness uses the same rule): 1..9 ASCII digits -/
+def num (s : String) : Option Nat :=
+  if s.length = 0 ∨ s.length > 9 ∨ !s.all Char.isDigit then none else s.toNat?
+
+def counterOp : List String → Option Counter.Op
+  | ["acquire", h] => (num h).map .acquire
+  | ["drop", g] => (num g).map .drop
+  | ["avail", h, w] => match num h, num w with
+    | some h, some w => if w < nWakers then some (.available h w) else none
+    | _, _ => none
+  | ["clone", h] => (num h).map .clone
+  | ["total", h] => (num h).map .total
+  | _ => none
+
+def lwOp : List String → Option LocalWaker.Op
+  | ["reg", w] => match num w with
+    | some w => if w < nWakers then some (.register w) else none
+    | none => none
+  | ["wake"] => some .wake
+  | ["take"] => some .take
+  | _ => none
+
+def chanOp : List String → Option Chan.Op
+  | ["send", i, x] => match num i, num x with
+    | some i, some x => some (.send i x)
+    | _, _ => none
+  | ["clone", i] => (num i).map .clone
+  | ["dropS", i] => (num i).map .dropSender
+  | ["close", i] => (num i).map .close
+  | ["poll", w] => match num w with
+    | some w => if w < nWakers then some (.poll w) else none
+    | none => none
+  | ["rsender"] => some .senderFromReceiver
+  | ["dropR"] => some .dropReceiver
+  | _ => none
 
 def step (st : State) (line : String) : State × String :=
   match words line with
-  | "case" :: _ => (init, "ok")
-  | _ => (st, "bad-op")
+  | ["case", _, "counter", cap] => match num cap with
+    | some cap => (.counter (Counter.init cap), "ok")
+    | none => (.idle, "bad-op")
+  | ["case", _, "lw"] => (.lw {}, "ok")
+  | ["case", _, "chan"] => (.chan Chan.init, "ok")
+  | "case" :: _ => (.idle, "bad-op")
+  | ws =>
+    match st with
+    | .idle => (st, "bad-op")
+    | .counter s => match counterOp ws with
+      | none => (st, "bad-op")
+      | some op => match Counter.step s op with
+        | none => (st, "bad-op")
+        | some (s', o) => (.counter s', counterObs o)
+    | .lw l => match lwOp ws with
+      | none => (st, "bad-op")
+      | some op => (.lw (LocalWaker.step l op).1, lwObs (LocalWaker.step l op).2)
+    | .chan c => match chanOp ws with
+      | none => (st, "bad-op")
+      | some op => match Chan.step c op with
+        | none => (st, "bad-op")
+        | some (c', o) => (.chan c', chanObs o)
 
 end Driver.Local
